@@ -57,6 +57,26 @@ def stuck_cases(ctx, flavors, limit):
     return sc.with_flavors(out, flavors)
 
 
+def walk_case(c):
+    """only creating operations, at least one while the engine is down, then a restart with the cursor removed"""
+    toks = c["tokens"]
+    if not any(t[0] == "R" and t[1] == "cursorRemoved" for t in toks) or sum(1 for t in toks if t[0] == "X") != 1:
+        return False
+    down, n = False, 0
+    for t in toks:
+        if t[0] == "X":
+            down = True
+        elif t[0] == "R":
+            down = False
+        elif t[0] == "U":
+            # every operation must be one a walk can discover (an operation made just before the stop may not have been
+            # taken in yet either)
+            if t[2][0] not in ("create", "write", "mkdir"):
+                return False
+            n += 1 if down else 0
+    return n >= 1
+
+
 def run(ctx):
     ctx.extra["rule"] = ("base behaviours (TLC-generated one-sided and disjoint two-sided histories) x every engine provider call "
                          "index of the golden run x 4 fault kinds (single faults exhaustively for the chosen base behaviours, pairs "
@@ -71,6 +91,13 @@ def run(ctx):
     base += [c for c in sc.generate(ctx, "f_two", [1, 2], 2, GAPS, "std", filt="disjoint")
              if {t[1] for t in c["tokens"] if t[0] == "U"} == {0, 1}]
     base, full = sc.slice_cases(base, 40 if quick else 150, key="faultbase")
+    # behaviours with a stop, creations while the engine is down and a restart without a usable cursor: the faults then also
+    # hit the calls of the start-up WALK, the only way the offline creations can be discovered (only creations / edits are made
+    # while down: a walk does not promise deletions)
+    rs = [c for c in sc.generate(ctx, "f_walk", [1], 2, ["I", "X", "Rrm"], "std", filt="clean") +
+          sc.generate(ctx, "f_walkR", [2], 2, ["I", "X", "Rrm"], "std", filt="clean") if walk_case(c)]
+    rs, _ = sc.slice_cases(rs, 16 if quick else 80, key="faultwalk")
+    base = base + rs
     ctx.cov["exhaustive"] = False
     golden = sc.with_flavors([dict(c, tokens=[["F", NEVER, 4]] + c["tokens"]) for c in base], flavors)
     gtraces = sysfam.run_cases(ctx, golden)
